@@ -5,7 +5,11 @@ WorkflowGraph.instantiate_dowhile_next_iteration is called k times exactly as
 Controller._instantiate_next_dowhile_iteration does (next = state['currentIteration'] + 1).  Read back: graph nodes and
 edges, the references of every looped instance in FlowIRConcrete, WorkflowGraph._placeholders, the DoWhile state,
 DataReference.resolve() of the outside consumers' references (:ref/:output/:copy/:loopref/:loopoutput) and
-flowir.map_placeholder_id_to_iteration."""
+flowir.map_placeholder_id_to_iteration.
+Round 5: a workflow may import SEVERAL DoWhile documents (case['more'], instantiated in the order case['seq']; model:
+coq/Loop/Multi.v, the statement is judged per document with its own iteration count), and every Controller-driven case
+records what Controller.parse_workflow_graph registers in comp_condition_to_dowhile after initialise and after every
+instantiation (+ the 'C:' tags of the status report): the producer of the condition of the newest iteration."""
 import json
 import multiprocessing
 import os
@@ -29,6 +33,10 @@ ASSUMPTIONS = [
     '_true_nodes_from_identifiers / _input_dependencies_satisfied); no task is launched: Controller._schedule, '
     'finishedCheck and the resolution done by a running consumer are not exercised',
     'files read by :output/:loopoutput are created by the harness with contents naming their producer',
+    'workflows with several DoWhile documents: the (stage, name) pairs of all looped components are pairwise distinct '
+    '(Loop.MultiProofs.wf_multi) and distinct from the plain components; generated documents never bind an input to a '
+    'looped component of another document (open finding F5d, fixed corpus cases only); the edges of such workflows are '
+    'compared with the model (Loop.Multi.mgraph_edges) but characterised by a theorem for one document only',
     'command-line arguments of RANDOMLY generated components never contain two references one of which is a '
     'word-bounded substring of the other: the sequential regular-expression substitution of rewrite_all_references '
     'corrupts such command lines (open finding F5c, reproduced by two fixed corpus cases on every run; modelled in '
@@ -36,6 +44,8 @@ ASSUMPTIONS = [
 ]
 HEADER = 'Require Import V.Lib.JTree V.Loop.Model.\nOpen Scope N_scope.'
 CHECKER = 'check_case'
+MHEADER = 'Require Import V.Lib.JTree V.Loop.Model V.Loop.Multi.\nOpen Scope N_scope.'
+MCHECKER = 'check_mcase'
 
 COMP_NAMES = ['a', 'ab', 'a-b', 'b', 'stop', 'x1', 'n0', 'add', 'agg2', 'c_d', 'Loop', 'z9z']
 BIND_NAMES = ['b0', 'in', 'number', 'p-q', 'Bq']
@@ -48,8 +58,9 @@ KS_THOROUGH = [0, 1, 2, 3, 9, 10, 11, 12, 19, 20, 21, 25]
 
 
 # ------------------------------------------------------------------ generator
-def gen_case(rng, k):
-    S = rng.choice([0, 1, 1, 2, 3])
+def gen_case(rng, k, S=None):
+    S0 = rng.choice([0, 1, 1, 2, 3])
+    S = S0 if S is None else S
     nsrc = rng.choice([1, 2, 2, 3])
     srcs = [[n, rng.randint(0, S)] for n in rng.sample(SRC_NAMES, nsrc)]
     ncomp = rng.choice([1, 2, 2, 3, 3, 4])
@@ -183,8 +194,97 @@ def gen_case(rng, k):
     return case
 
 
+def plain_ids(case):
+    return set((s[1], s[0]) for s in case['srcs']) | set((o['stage'], o['name']) for o in case['outs'])
+
+
+def gen_multi(rng, ks):
+    """a workflow importing 2 (sometimes 3) DoWhile documents: independent packages of gen_case merged into one —
+    the (stage, name) pairs of all looped components pairwise distinct and distinct from the plain components; the
+    same NAME may be looped in two documents (different stages), the documents may be imported in the same stage or
+    in different ones and listed in either order; every document gets its own iteration count and the iterations
+    are instantiated in blocks or interleaved; some outside consumers read looped components of several loops"""
+    n = 3 if rng.random() < 0.15 else 2
+    for _attempt in range(200):
+        parts = [gen_case(rng, 0)]
+        same_stage = rng.random() < 0.35
+        while len(parts) < n:
+            parts.append(gen_case(rng, 0, S=parts[0]['S'] if same_stage else None))
+        ok = True
+        for i, a in enumerate(parts):
+            a['dwname'] = ['dw', 'loop-1', 'l3'][i] if rng.random() < 0.7 else a['dwname'] + '-%d' % i
+            a['outs'] = [dict(o, name=o['name'] + ('' if i == 0 or o['name'] not in OUT_NAMES else str(i))) for o in a['outs']]
+        for i, a in enumerate(parts):
+            for j, b in enumerate(parts):
+                if i == j:
+                    continue
+                if looped_ids(a) & (looped_ids(b) | plain_ids(b)):
+                    ok = False
+                if i < j and (set((o['stage'], o['name']) for o in a['outs']) & plain_ids(b)):
+                    ok = False
+                if i < j and (a['S'], a['dwname']) == (b['S'], b['dwname']):
+                    ok = False
+            if (a['S'], a['dwname']) in plain_ids(a):
+                ok = False
+        if not ok:
+            continue
+        case = dict(parts[0])
+        case.pop('ctl', None)
+        case['more'] = [dict((k, q[k]) for k in c05_impl.LOOP_KEYS) for q in parts[1:]]
+        srcs = []
+        for q in parts:
+            for x in q['srcs']:
+                if x not in srcs and not x[0].startswith('fill'):
+                    srcs.append(x)
+        outs = [o for q in parts for o in q['outs']]
+        # some consumers read several loops (the placeholders of each resolve to that loop's own newest iteration)
+        tops = [l['S'] + max(c['stage'] for c in l['comps']) for l in c05_impl.loops_of(case)]
+        for o in outs:
+            for j, l in enumerate(c05_impl.loops_of(case)):
+                if o['stage'] >= tops[j] and rng.random() < 0.4:
+                    c = rng.choice(l['comps'])
+                    r = [l['S'] + c['stage'], c['name'], rng.choice(['', 'f']), rng.choice(['ref', 'output', 'loopref', 'loopoutput'])]
+                    if r not in o['refs']:
+                        o['refs'] = o['refs'] + [r]
+        used = set(x[1] for x in srcs) | set(st for st, _n in looped_ids(case)) | set(o['stage'] for o in outs)
+        for st in range(max(used) + 1):
+            if st not in used:
+                srcs.append(['fill%d' % st, st])
+        case['srcs'], case['outs'] = srcs, outs
+        counts = [rng.choice(ks) for _ in range(n)]
+        mode = rng.random()
+        if mode < 0.3:        # the LAST document gets ahead of the others
+            counts.sort()
+        elif mode < 0.4:
+            counts.sort(reverse=True)
+        seq = [j for j in range(n) for _ in range(counts[j])]
+        order = rng.random()
+        if order < 0.5:
+            rng.shuffle(seq)                           # interleaved
+        elif order < 0.75:
+            seq.sort(reverse=True)                     # the later documents first, in blocks
+        case['seq'] = seq
+        case['k'] = seq.count(0)
+        io = list(range(n))
+        if rng.random() < 0.5:
+            rng.shuffle(io)
+        case['import_order'] = io
+        if rng.random() < 0.5:
+            case['ctl'] = {'start': rng.randint(0, min(l['S'] for l in c05_impl.loops_of(case))),
+                           'inspect': rng.choice(['end', 'end', 'each', 'none'])}
+        if args_conflict(case) or duplicate_refs(case):
+            continue
+        return case
+    raise RuntimeError('gen_multi: no admissible workflow in 200 attempts')
+
+
 def looped_ids(case):
-    return set((case['S'] + c['stage'], c['name']) for c in case['comps'])
+    """(stage, name) of the looped components of ALL DoWhile documents of the case"""
+    return set((l['S'] + c['stage'], c['name']) for l in c05_impl.loops_of(case) for c in l['comps'])
+
+
+def loop_ids(loop):
+    return set((loop['S'] + c['stage'], c['name']) for c in loop['comps'])
 
 
 def name_clashes(case):
@@ -195,11 +295,12 @@ def name_clashes(case):
 
 def duplicate_refs(case):
     """a component whose references coincide after rewriting (FlowIR wants every declared reference to be used once)"""
-    for c in case['comps']:
-        for i in (0, 1):
-            e = expected_refs(case, c, i)
-            if len(set(e)) != len(e):
-                return True
+    for loop in c05_impl.loops_of(case):
+        for c in loop['comps']:
+            for i in (0, 1):
+                e = expected_refs(loop, c, i)
+                if len(set(e)) != len(e):
+                    return True
     return False
 
 
@@ -266,6 +367,60 @@ def clash_case(k, ctl=None):
     return case
 
 
+def latecond_case(k, ctl=None):
+    """boundary case of the stage layout of the condition: the loop spans two stages and its condition is produced in
+    the SECOND one (the Controller must register stage2.k#stop, not a component of the importing stage)"""
+    case = {'S': 1, 'dwname': 'loop', 'srcs': [['GenerateInput', 0]],
+            'comps': [{'name': 'prep', 'stage': 0, 'refs': [['B', 'number', '']]},
+                      {'name': 'work', 'stage': 1, 'refs': [['C', 0, 'prep', '', 'output']]},
+                      {'name': 'stop', 'stage': 1, 'refs': [['C', None, 'work', '', 'ref']]}],
+            'ibind': [['number', 'output']], 'binds': [['number', [0, 'GenerateInput', '']]],
+            'loopb': [['number', [1, 'work', '']]], 'cond': [1, 'stop', ''],
+            'outs': [{'name': 'report', 'stage': 3, 'refs': [[2, 'work', '', 'output'], [2, 'work', '', 'loopoutput']]}],
+            'k': k}
+    if ctl:
+        case['ctl'] = ctl
+    return case
+
+
+def two_loops_case(seq, import_order=None, ctl=None):
+    """boundary case of workflows with several DoWhile documents: document 0 is imported in stage 1 (looped work in
+    stage 1, stop in stage 2), document 1 in stage 2 (looped work and halt in stage 2): 'work' is looped in both,
+    stage 2 holds instances of both; each document has its own iteration count (seq = the order of instantiation);
+    the consumer reads both loops (coq: Loop.MultiProofs.ex_docs)"""
+    case = {'S': 1, 'dwname': 'first', 'srcs': [['gen', 0]],
+            'comps': [{'name': 'work', 'stage': 0, 'refs': [['B', 'number', '']]},
+                      {'name': 'stop', 'stage': 1, 'refs': [['C', 0, 'work', '', 'output']]}],
+            'ibind': [['number', 'output']], 'binds': [['number', [0, 'gen', '']]],
+            'loopb': [['number', [None, 'work', '']]], 'cond': [1, 'stop', ''],
+            'more': [{'S': 2, 'dwname': 'second',
+                      'comps': [{'name': 'work', 'stage': 0, 'refs': [['B', 'inp', ''], ['B', 'base', 'f']]},
+                                {'name': 'halt', 'stage': 0, 'refs': [['C', None, 'work', '', 'output']]}],
+                      'ibind': [['inp', 'output'], ['base', 'ref']],
+                      'binds': [['inp', [0, 'gen', '']], ['base', [0, 'gen', '']]],
+                      'loopb': [['inp', [0, 'work', 'g.txt']]], 'cond': [None, 'halt', 'f']}],
+            'outs': [{'name': 'rep', 'stage': 3,
+                      'refs': [[1, 'work', '', 'ref'], [2, 'work', '', 'ref'], [2, 'work', '', 'loopref'],
+                               [2, 'stop', '', 'output'], [1, 'work', 'f', 'loopoutput'], [2, 'halt', '', 'ref']]}],
+            'seq': list(seq), 'k': list(seq).count(0)}
+    if import_order:
+        case['import_order'] = import_order
+    if ctl:
+        case['ctl'] = ctl
+    return case
+
+
+def chained_loops_case(seq):
+    """two_loops_case with the second document CONSUMING the first: its binding 'inp' is bound to stage1.work, a
+    looped component of the first document (the second document is listed first: the loader accepts the binding only
+    then).  seq = [] loads and is wired as the model says (the instances of the second loop wait for all instances of
+    stage1.work and for the first loop's condition); any further iteration of the second document is the witness of
+    the open finding F5d"""
+    case = two_loops_case(seq, [1, 0])
+    case['more'][0]['binds'] = [['inp', [1, 'work', '']], ['base', [0, 'gen', '']]]
+    return case
+
+
 def with_ctl(case, start, inspect):
     case = dict(case)
     case['ctl'] = {'start': start, 'inspect': inspect}
@@ -273,14 +428,31 @@ def with_ctl(case, start, inspect):
 
 
 F5C = 'overlapping_reference_texts_on_a_looped_command_line'
+F5D = 'input_binding_bound_to_a_looped_component_of_another_dowhile_document'
+
+
+def cross_loop_binding(case):
+    """class of F5d (a predicate on the input): an input binding of one DoWhile document is bound to a looped
+    component (placeholder) of ANOTHER DoWhile document of the workflow and at least one further iteration of the
+    bound document is instantiated"""
+    loops = c05_impl.loops_of(case)
+    seq = c05_impl.sequence_of(case)
+    for j, l in enumerate(loops):
+        others = set()
+        for i, o in enumerate(loops):
+            if i != j:
+                others |= loop_ids(o)
+        if j in seq and any((v[0], v[1]) in others for _b, v in l['binds']):
+            return True
+    return False
 
 
 def loop_args_conflict(case):
     """class of F5c (a predicate on the input; Loop.Subst.overlap): the command line of a LOOPED component holds two
     different reference texts, the LATER of which occurs word-bounded inside the EARLIER one (whose rewritten form
     is already in the string when the later one is substituted; the other direction is harmless)"""
-    _main, dw = c05_impl.documents(case)
-    for comp in dw['components']:
+    _main, dws = c05_impl.documents_multi(case)
+    for comp in [c for dw in dws for c in dw['components']]:
         toks = (comp.get('command', {}).get('arguments') or '').split()
         for i, a in enumerate(toks):
             for b in toks[i + 1:]:
@@ -337,8 +509,8 @@ def subst_correspondence(ctx):
 
 def args_conflict(case):
     """two references on one generated command line, one a word-bounded substring of the other"""
-    main, dw = c05_impl.documents(case)
-    for comp in main['components'] + dw['components']:
+    main, dws = c05_impl.documents_multi(case)
+    for comp in main['components'] + [c for dw in dws for c in dw['components']]:
         toks = (comp.get('command', {}).get('arguments') or '').split()
         for a in toks:
             for b in toks:
@@ -353,7 +525,7 @@ def expected_refs(case, c, i):
     types = dict(case['ibind'])
     binds = dict((b, v) for b, v in case['binds'])
     loopb = dict((b, v) for b, v in case['loopb'])
-    looped = looped_ids(case)
+    looped = loop_ids(case)
     out = []
     for r in c['refs']:
         if r[0] == 'B':
@@ -373,12 +545,81 @@ def expected_refs(case, c, i):
     return out
 
 
+def _is_instance_of(node, ids):
+    st, name = node.split('.', 1)
+    return '#' in name and (int(st[5:]), name.split('#', 1)[1]) in ids
+
+
+def loop_views(case, obs):
+    """one (case, observation) pair per DoWhile document: the workflow as that loop sees it — the instances of the
+    other loops, their placeholders and the references of the outside consumers to them are left out; k = the number
+    of times THIS document was instantiated"""
+    loops = c05_impl.loops_of(case)
+    if len(loops) == 1:
+        return [(case, obs)]
+    seq = c05_impl.sequence_of(case)
+    views = []
+    for j, loop in enumerate(loops):
+        others = set()
+        for i, l in enumerate(loops):
+            if i != j:
+                others |= loop_ids(l)
+        vc = dict((k, v) for k, v in case.items() if k not in ('more', 'seq', 'import_order'))
+        vc.update(loop)
+        vc['k'] = seq.count(j)
+        vc['outs'] = [dict(o, refs=[r for r in o['refs'] if (r[0], r[1]) not in others]) for o in case['outs']]
+        vo = obs
+        if 'error' not in obs:
+            vo = dict(obs)
+            vo['nodes'] = [n for n in obs['nodes'] if not _is_instance_of(n, others)]
+            vo['steps'] = [s for s, jj in zip(obs['steps'], obs['step_docs']) if jj == j]
+            vo['state'] = obs['states'].get('stage%d.%s' % (loop['S'], loop['dwname']),
+                                            {'currentCondition': None, 'currentIteration': None})
+        views.append((vc, vo))
+    return views
+
+
+COND_MSG = ('the Controller does not register the producer of the condition of the newest iteration as the component '
+            'whose termination decides the next iteration of the loop (comp_condition_to_dowhile / status report)')
+
+
 def predicate(case, obs):
-    """-> list of messages, one per part of the statement that is false of the implementation on this case"""
-    S, k = case['S'], case['k']
-    bad = []
+    """-> list of messages, one per part of the statement that is false of the implementation on this case; the
+    statement is evaluated for every DoWhile document of the workflow (each with its own iteration count)"""
     if 'error' in obs:
         return ['the real code raised %s while loading/iterating a valid DoWhile package' % obs['error']]
+    bad = []
+    for vc, vo in loop_views(case, obs):
+        bad += predicate_loop(vc, vo)
+    loops = c05_impl.loops_of(case)
+    seq = c05_impl.sequence_of(case)
+    if sorted(obs['states']) != sorted('stage%d.%s' % (l['S'], l['dwname']) for l in loops):
+        bad.append('the workflow does not hold exactly the DoWhile documents it imports')
+    # what the Controller registered after initialise and after each instantiation: for every document the instance
+    # of the condition's producer (stage AND name) of that document's newest iteration
+    def registered(t):
+        out = {}
+        for j, l in enumerate(loops):
+            out['stage%d.%d#%s' % (l['S'] + (l['cond'][0] or 0), seq[:t].count(j), l['cond'][1])] = \
+                'stage%d.%s' % (l['S'], l['dwname'])
+        return out
+    if obs.get('conds'):
+        if len(obs['conds']) != len(seq) + 1 or any(obs['conds'][t] != registered(t) for t in range(len(seq) + 1)):
+            bad.append(COND_MSG)
+    if obs.get('ctags') is not None and obs['ctags'] != sorted(registered(len(seq))):
+        bad.append(COND_MSG)
+    seen, uniq = set(), []
+    for b in bad:
+        if b not in seen:
+            seen.add(b)
+            uniq.append(b)
+    return uniq
+
+
+def predicate_loop(case, obs):
+    """the statement for ONE DoWhile document (case/obs: a view of loop_views)"""
+    S, k = case['S'], case['k']
+    bad = []
     node = lambda c, i: 'stage%d.%d#%s' % (S + c['stage'], i, c['name'])
     # instances
     want = set(node(c, i) for c in case['comps'] for i in range(k + 1))
@@ -471,26 +712,73 @@ def c_aref(st, prod, f, m):
     return '(mk_aref %s %s %s %s)' % (cN(st), cstr(prod), cstr(f), cstr(m))
 
 
-def c_case(case, obs):
-    types = dict(case['ibind'])
+def c_doc(loop):
+    types = dict(loop['ibind'])
 
     def c_ref(r):
         if r[0] == 'B':
             return '(RBind %s %s %s)' % (cstr(r[1]), cstr(r[2]), cstr(types[r[1]]))
         return '(RComp %s %s %s %s)' % (copt(r[1], cN), cstr(r[2]), cstr(r[3]), cstr(r[4]))
 
-    comps = clist(case['comps'], lambda c: '(mk_comp %s %s %s)' % (cstr(c['name']), cN(c['stage']), clist(c['refs'], c_ref)))
-    binds = clist(case['binds'], lambda bv: cpair(cstr(bv[0]), c_aref(bv[1][0], bv[1][1], bv[1][2], types[bv[0]])))
+    comps = clist(loop['comps'], lambda c: '(mk_comp %s %s %s)' % (cstr(c['name']), cN(c['stage']), clist(c['refs'], c_ref)))
+    binds = clist(loop['binds'], lambda bv: cpair(cstr(bv[0]), c_aref(bv[1][0], bv[1][1], bv[1][2], types[bv[0]])))
     lb = lambda v, m: '(mk_lb %s %s %s %s)' % (copt(v[0], cN), cstr(v[1]), cstr(v[2]), cstr(m))
-    loopb = clist(case['loopb'], lambda bv: cpair(cstr(bv[0]), lb(bv[1], types[bv[0]])))
-    doc = '(mk_dw %s %s %s %s %s)' % (cN(case['S']), comps, binds, loopb, lb(case['cond'], 'output'))
+    loopb = clist(loop['loopb'], lambda bv: cpair(cstr(bv[0]), lb(bv[1], types[bv[0]])))
+    return '(mk_dw %s %s %s %s %s)' % (cN(loop['S']), comps, binds, loopb, lb(loop['cond'], 'output'))
+
+
+def c_outs(case):
     outs = [('(mk_ocomp %s %s [])' % (cstr(s[0]), cN(s[1]))) for s in case['srcs']]
     outs += ['(mk_ocomp %s %s %s)' % (cstr(o['name']), cN(o['stage']), clist(o['refs'], lambda r: c_aref(*r)))
              for o in case['outs']]
-    sl = lambda xs: clist(xs, cstr)
+    return outs
+
+
+def sl(xs):
+    return clist(xs, cstr)
+
+
+def c_ctl(obs):
+    return clist(sorted(obs.get('ctl', {}).items()),
+                 lambda kv: cpair(cstr(kv[0]), cpair(sl(kv[1]['producers']), cpair(sl(kv[1]['all']), sl(kv[1]['latest'])))))
+
+
+def c_mcase(case, obs):
+    """a workflow with several DoWhile documents (Loop.Multi.check_mcase)"""
+    loops = c05_impl.loops_of(case)
+    names = ['stage%d.%s' % (l['S'], l['dwname']) for l in loops]
+    conds = obs.get('conds') or []
+    steps = []
+    for t, (j, st) in enumerate(zip(obs['step_docs'], obs['steps'])):
+        after = sorted(conds[t + 1]) if conds else []
+        steps.append('(%s, (%s, %s), %s)' % (cnat(j), cN(st[0]), sl(st[1]), sl(after)))
+    resolve = [obs['resolve']['%s|%s' % (o['name'], c05_impl.ref_str(*r))] for o in case['outs'] for r in o['refs']]
+    mp = [obs['map_latest'].get('stage%d.%s' % (l['S'] + c['stage'], c['name'])) for l in loops for c in l['comps']]
+    o = '(mk_mobs %s %s %s %s %s %s %s %s %s %s %s)' % (
+        clist(steps, lambda x: x),
+        sl(obs['nodes']),
+        clist(sorted(obs['insts'].items()),
+              lambda kv: cpair(cstr(kv[0]), '(%s, %s, %s)' % (cN(kv[1]['stage']), cN(kv[1]['loopIteration']), sl(kv[1]['refs'])))),
+        clist(sorted(obs['preds'].items()), lambda kv: cpair(cstr(kv[0]), sl(kv[1]))),
+        clist(sorted(obs['placeholders'].items()),
+              lambda kv: cpair(cstr(kv[0]), cpair(cstr(kv[1]['DoWhileId']), cpair(cstr(kv[1]['latest']), sl(kv[1]['represents']))))),
+        clist(sorted(obs['states'].items()),
+              lambda kv: cpair(cstr(kv[0]), cpair(cstr(kv[1]['currentCondition']), cN(kv[1]['currentIteration'])))),
+        sl(resolve),
+        clist(mp, lambda x: copt(x, cstr)),
+        c_ctl(obs),
+        copt(sorted(conds[0]) if conds else None, sl),
+        copt(obs.get('ctags'), sl))
+    return '(mk_mcase %s %s %s %s %s)' % (clist(loops, c_doc), sl(names), clist(c_outs(case), lambda x: x),
+                                          clist(obs['step_docs'], cnat), o)
+
+
+def c_case(case, obs):
+    doc = c_doc(case)
+    outs = c_outs(case)
     resolve = [obs['resolve']['%s|%s' % (o['name'], c05_impl.ref_str(*r))] for o in case['outs'] for r in o['refs']]
     mp = [obs['map_latest'].get('stage%d.%s' % (case['S'] + c['stage'], c['name'])) for c in case['comps']]
-    o = '(mk_obs %s %s %s %s %s %s %s %s %s)' % (
+    o = '(mk_obs %s %s %s %s %s %s %s %s %s %s %s)' % (
         clist(obs['steps'], lambda s: cpair(cN(s[0]), sl(s[1]))),
         sl(obs['nodes']),
         clist(sorted(obs['insts'].items()),
@@ -501,9 +789,10 @@ def c_case(case, obs):
         cpair(cstr(obs['state']['currentCondition']), cN(obs['state']['currentIteration'])),
         sl(resolve),
         clist(mp, lambda x: copt(x, cstr)),
-        clist(sorted(obs.get('ctl', {}).items()),
-              lambda kv: cpair(cstr(kv[0]), cpair(sl(kv[1]['producers']), cpair(sl(kv[1]['all']), sl(kv[1]['latest']))))))
-    return '(mk_case %s %s %s %s)' % (doc, clist(outs), cnat(case['k']), o)
+        c_ctl(obs),
+        clist(obs.get('conds') or [], lambda d: sl(sorted(d))),
+        copt(obs.get('ctags'), sl))
+    return '(mk_case %s %s %s %s)' % (doc, clist(outs, lambda x: x), cnat(case['k']), o)
 
 
 # ------------------------------------------------------------------ running
@@ -521,9 +810,30 @@ def explore(ctx, cases, parallel=True):
     else:
         observations = [_drive(c) for c in cases]
     terms, owners = [], []
+    mterms, mowners = [], []
     for case, obs in zip(cases, observations):
         k = case['k']
         nontrivial = k >= 2 and bool(case['loopb']) and len(case['comps']) >= 2
+        nloops = len(c05_impl.loops_of(case))
+        if nloops > 1:
+            seq = c05_impl.sequence_of(case)
+            counts = [seq.count(j) for j in range(nloops)]
+            nontrivial = len(set(counts)) > 1 and max(counts) >= 2
+            ctx.count('workflows with %d DoWhile documents' % nloops)
+            if len(set(counts)) > 1:
+                ctx.count('... at different iteration counts')
+            if any(counts[j] > counts[i] for i in range(nloops) for j in range(i + 1, nloops)):
+                ctx.count('... a later document ahead of an earlier one')
+            if any(seq[t] != seq[t + 1] and seq[t] in seq[t + 1:] for t in range(len(seq) - 1)):
+                ctx.count('... instantiated in interleaved order')
+            ss = [l['S'] for l in c05_impl.loops_of(case)]
+            ctx.count('... imported in the same stage' if len(set(ss)) < len(ss) else '... imported in different stages')
+            if case.get('import_order') and case['import_order'] != sorted(case['import_order']):
+                ctx.count('... listed in the package in another order')
+        cl = c05_impl.loops_of(case)
+        if any((l['cond'][0] or 0) > min(c['stage'] for c in l['comps']) for l in cl):
+            ctx.count('condition produced in a LATER stage of the loop body' +
+                      (' (driven by a Controller)' if case.get('ctl') else ''))
         canonical = dict(case)
         ctx.case(canonical, nontrivial)
         ctx.count('k=%d' % k)
@@ -535,6 +845,10 @@ def explore(ctx, cases, parallel=True):
         if 'error' in obs and obs['error'].startswith('driver:'):
             raise RuntimeError('C05 driver failed: %s %s' % (obs['error'], obs.get('msg')))
         classes = [F5C] if loop_args_conflict(case) else []
+        if cross_loop_binding(case):
+            classes.append(F5D)
+            ctx.count('further iteration of a DoWhile bound to a looped component of another DoWhile (class of the '
+                      'open finding F5d; fixed corpus cases only)')
         if classes:
             ctx.count('looped command line with overlapping reference texts (class of the open finding F5c)')
         if len(set((c['stage'], c['name']) for c in case['comps'])) > len(set(c['name'] for c in case['comps'])):
@@ -557,10 +871,14 @@ def explore(ctx, cases, parallel=True):
             ctx.fail({'case': case, 'observed': _brief(obs)}, what, classes)
         if 'error' in obs:
             continue
-        terms.append(c_case(case, obs))
-        owners.append((case, obs))
+        if nloops > 1:
+            mterms.append(c_mcase(case, obs))
+            mowners.append((case, obs))
+        else:
+            terms.append(c_case(case, obs))
+            owners.append((case, obs))
         ctx.sample({'case': case, 'latest': dict((p, v['latest']) for p, v in obs['placeholders'].items()),
-                    'state': obs['state'], 'resolve': obs['resolve']}, limit=3)
+                    'state': obs['states'], 'resolve': obs['resolve']}, limit=3)
     bad = ctx.model_mismatches(HEADER, terms, CHECKER, chunk=12, name='c05')
     for n, i in enumerate(bad):
         case, obs = owners[i]
@@ -573,13 +891,27 @@ def explore(ctx, cases, parallel=True):
                                    'flat_map (fun oc => map (resolve KeyInt w) (o_refs oc)) (w_out w))' % t)[-3000:]
         ctx.disagree({'case': case}, _brief(obs), model,
                      'C05 unrolling: instantiate_dowhile_next_iteration/placeholders/state/resolve vs Loop.Model.unroll')
+    bad = ctx.model_mismatches(MHEADER, mterms, MCHECKER, chunk=8, name='c05multi') if mterms else []
+    for n, i in enumerate(bad):
+        case, obs = mowners[i]
+        model = ''
+        if n < 2:
+            model = ctx.model_eval(MHEADER, 'let c := %s in let m := munroll (mk_docs c) (mk_out c) (mk_seq c) in '
+                                   '(m_steps m, map (fun x => (inst_node x, map pr_ref (i_refs x))) (m_loop m), '
+                                   'map (fun d => (cur_cond (view m d), cur_iter (view m d), '
+                                   'map (fun c => option_map inst_node (latest KeyInt (view m d) (comp_id (d_stage d) c))) (d_comps d))) (m_docs m), '
+                                   'm_edges m, flat_map (fun oc => map (mresolve m) (o_refs oc)) (m_out m))' % mterms[i])[-3000:]
+        ctx.disagree({'case': case}, _brief(obs), model,
+                     'C05 several DoWhile documents: instantiate_dowhile_next_iteration/placeholders/states/resolve/'
+                     'comp_condition_to_dowhile vs Loop.Multi.munroll')
     return observations
 
 
 def _brief(obs):
     if 'error' in obs:
         return obs
-    return {'nodes': obs['nodes'], 'state': obs['state'], 'resolve': obs['resolve'],
+    return {'nodes': obs['nodes'], 'state': obs['states'], 'resolve': obs['resolve'],
+            'registered_conditions': obs.get('conds'), 'status_report_C_tags': obs.get('ctags'),
             'latest': dict((p, v['latest']) for p, v in obs['placeholders'].items()),
             'map_latest': obs['map_latest'], 'steps': [s[0] for s in obs['steps']],
             'placeholders': obs['placeholders'], 'controller_view': obs.get('ctl'),
@@ -599,6 +931,18 @@ def corpus():
             with_ctl(simple_case(2), 0, 'end'), with_ctl(simple_case(0), 1, 'end'), with_ctl(simple_case(11), 1, 'each'),
             with_ctl(simple_case(3), 0, 'none'), with_ctl(samename_case(2, 1), 0, 'end'),
             with_ctl(samename_case(3, 0), 1, 'each')]
+    # the condition produced in a later stage of the loop body, as the Controller sees it
+    out += [latecond_case(0, {'start': 0, 'inspect': 'end'}), latecond_case(2, {'start': 1, 'inspect': 'each'}),
+            latecond_case(11)]
+    # several DoWhile documents: the later document ahead / behind / level, blocks and interleaved, either listing
+    # order, bare and through a Controller
+    out += [two_loops_case([]), two_loops_case([1, 1, 1, 0]), two_loops_case([0, 0, 1], [1, 0]),
+            two_loops_case([1, 0, 1, 0, 1], [1, 0], {'start': 0, 'inspect': 'each'}),
+            two_loops_case([1] * 11 + [0, 0], None, {'start': 1, 'inspect': 'end'}),
+            two_loops_case([0] * 10 + [1], [1, 0])]
+    # a loop bound to a looped component of another loop: loads (and the first loop iterates); F5d (open): the first
+    # further iteration of the bound loop is refused — reproduced on every run
+    out += [chained_loops_case([]), chained_loops_case([0, 0]), chained_loops_case([0, 1])]
     d = os.path.join(os.path.dirname(os.path.abspath(__file__)), 'corpus', 'c05')
     if os.path.isdir(d):
         for f in sorted(os.listdir(d)):
@@ -614,7 +958,11 @@ def run(ctx):
                 'another stage, consumers with :ref/:output/:copy/:loopref/:loopoutput) x number of further '
                 'iterations k x driver (bare WorkflowGraph, or ~45% a real Controller that instantiates the '
                 'iterations and inspects the workflow after each / after the last one); non-trivial = k >= 2, at '
-                'least one loop binding and at least two looped components; distinct by the whole case')
+                'least one loop binding and at least two looped components; distinct by the whole case; PLUS workflows '
+                'with 2-3 DoWhile documents (merged independent packages; same/different import stage, either listing '
+                'order, shared names, own iteration count per document in {0,1,2,3,5} (thorough: up to 11), blocks or '
+                'interleaved, ~50% through a Controller): non-trivial = the documents are at different iteration '
+                'counts and one of them at >= 2')
     rng = ctx.rng
     ks = KS_QUICK if ctx.tier == 'quick' else KS_THOROUGH
     per_k = 30 if ctx.tier == 'quick' else 60
@@ -628,6 +976,9 @@ def run(ctx):
                 continue
             cases.append(c)
             n += 1
+    mks = [0, 1, 2, 3, 5] if ctx.tier == 'quick' else [0, 1, 2, 3, 5, 10, 11]
+    for _ in range(40 if ctx.tier == 'quick' else 120):
+        cases.append(gen_multi(rng, mks))
     explore(ctx, cases)
     subst_correspondence(ctx)
     ctx.count('cases', len(cases))
